@@ -209,7 +209,11 @@ impl GroupStorage for MdkSqliteStorage {
 
             let messages_iter = stmt
                 .query_map(
-                    params![mls_group_id.as_slice(), limit as i64, offset as i64],
+                    params![
+                        mls_group_id.as_slice(),
+                        limit as i64,
+                        i64::try_from(offset).unwrap_or(i64::MAX)
+                    ],
                     db::row_to_message,
                 )
                 .map_err(into_group_err)?;
